@@ -459,9 +459,18 @@ type c16LogGate struct {
 	until    time.Time
 	stalled  int
 	timedOut int
+	slowEnd  time.Duration // when > 0: the "copy loop ended" line takes this long to write
 }
 
 func (g *c16LogGate) Write(p []byte) (int, error) {
+	if bytes.Contains(p, []byte("copy loop ended")) {
+		g.mu.Lock()
+		d := g.slowEnd
+		g.mu.Unlock()
+		if d > 0 {
+			time.Sleep(d)
+		}
+	}
 	if bytes.Contains(p, []byte("OnDataChannel")) {
 		g.mu.Lock()
 		armed, until := g.armed, g.until
@@ -942,6 +951,90 @@ func (e *c16Env) timeouts(M int) {
 
 // stalledDownloader: a connected client stops reading in the middle of a relay-to-client bulk transfer and then
 // goes away without draining what is queued for it.  The handler must still end and return the slot.
+// streamingWhileClientLeaves: the relay keeps pushing small messages while the client closes its peer
+// connection, so that webRTCConn.Write keeps being called while (and after) the data channel's OnClose
+// handler runs; the log line copyLoop writes before it closes both ends is slowed down to keep that window
+// open for a few milliseconds. The slot must come back; under the race detector this is the workload for
+// webRTCConn's data channel pointer.
+func (e *c16Env) streamingWhileClientLeaves(round int) {
+	r := e.r
+	tokens = newTokens(2)
+	c, err := c16NewClient()
+	if err != nil {
+		r.Note("streaming relay: client: %v", err)
+		return
+	}
+	var got int64
+	c.dc.OnMessage(func(m webrtc.DataChannelMessage) { atomic.AddInt64(&got, int64(len(m.Data))) })
+	path := fmt.Sprintf("/streaming-relay-%d", round)
+	p := &c16Plan{poll: "offer", offer: c.offer, client: c, answer: "accept", applyAfter: 0, relayURL: e.relay.wsURL(path)}
+	_, o := e.session(e.sf, p, 15*time.Second)
+	line := "c16 events 1 2 d  [relay streams 1 KiB messages without pause; the client closes its peer connection in mid-stream]"
+	r.Case("exit/d/client-leaves-in-mid-stream", fmt.Sprintf("%s round %d", line, round), true)
+	if o != "ok" {
+		r.OracleFail("run-session-"+o, line, o, "runSession did not return")
+		return
+	}
+	var ws *websocket.Conn
+	for i := 0; i < 500 && ws == nil; i++ {
+		e.relay.mu.Lock()
+		ws = e.relay.conns[path]
+		e.relay.mu.Unlock()
+		if ws == nil {
+			time.Sleep(10 * time.Millisecond)
+		}
+	}
+	if ws == nil {
+		r.Note("streaming relay: the proxy never dialed the relay (client could not connect?)")
+		c.pc.Close()
+		c16WaitCount(0, 5*time.Second, 0)
+		return
+	}
+	e.gate.mu.Lock()
+	e.gate.slowEnd = 30 * time.Millisecond
+	e.gate.mu.Unlock()
+	stop := make(chan struct{})
+	pushed := make(chan int, 1)
+	go func() {
+		buf := make([]byte, 1024)
+		n := 0
+		for {
+			select {
+			case <-stop:
+				pushed <- n
+				return
+			default:
+			}
+			ws.SetWriteDeadline(time.Now().Add(5 * time.Second))
+			if ws.WriteMessage(websocket.BinaryMessage, buf) != nil {
+				pushed <- n
+				return
+			}
+			n += len(buf)
+			if n%(64<<10) == 0 {
+				time.Sleep(time.Millisecond) // about 64 MiB/s at most
+			}
+		}
+	}()
+	time.Sleep(300 * time.Millisecond)
+	c.pc.Close()
+	after := c16WaitCount(0, 20*time.Second, 200*time.Millisecond)
+	close(stop)
+	n := 0
+	select {
+	case n = <-pushed:
+	case <-time.After(8 * time.Second):
+	}
+	ws.Close()
+	e.gate.mu.Lock()
+	e.gate.slowEnd = 0
+	e.gate.mu.Unlock()
+	if after != 0 {
+		r.OracleFail("slot-leaked/client-leaves-in-mid-stream", line, fmt.Sprintf("slots in use 20 s after the client left: %d (relay pushed %d bytes, client read %d)", after, n, atomic.LoadInt64(&got)),
+			"when the client goes away the data channel handler must end and release its slot while the relay is still sending")
+	}
+}
+
 func (e *c16Env) stalledDownloader() {
 	r := e.r
 	tokens = newTokens(2)
@@ -1451,6 +1544,9 @@ func TestVerifC16(t *testing.T) {
 	}
 	if e.pionOK && !broken() {
 		e.stalledDownloader()
+	}
+	for k := 0; k < r.N(2, 6) && e.pionOK && !broken(); k++ {
+		e.streamingWhileClientLeaves(k)
 	}
 	if r.Thorough() {
 		wg.Add(1)
